@@ -17,3 +17,35 @@ Definition run_dssr_pairs (names : list str) (pairs : list (option str * option 
   vres' (vlist (fun t => VL [vnat (fst (fst t)); vnat (snd (fst t)); vstr (snd t)])) (dssr_pairs names pairs).
 Definition run_dssr_stack (names : list str) (nts : str) : val :=
   vlist (vpair vnat vnat) (dssr_stack names nts).
+
+(* ---- mmCIF documents *)
+From RV Require Import Model.CifDoc.
+Definition mkdoc (l : list (str * list str * list (list str))) : doc :=
+  map (fun t => {| c_name := fst (fst t); c_attrs := snd (fst t); c_rows := snd t |}) l.
+Definition vdoc (d : doc) : val :=
+  vlist (fun c => VL [vstr (c_name c); vlist vstr (c_attrs c); vlist (vlist vstr) (c_rows c)]) d.
+Definition run_copy (d : list (str * list str * list (list str))) (cat from to : str) : val :=
+  match copy_item (mkdoc d) cat from to with Some d' => vdoc d' | None => VN end.
+Definition run_replace (d : list (str * list str * list (list str))) (cat col values : str) : val :=
+  match replace_item (mkdoc d) cat col values with
+  | Raise e => VE (exn_name e)
+  | Ok None => VN
+  | Ok (Some (d', m)) => VL [vdoc d'; vlist (vpair vstr vstr) m]
+  end.
+
+(* documents are compared as sorted-by-name category lists (category order is not observed) *)
+From RV Require Import Model.AllDb.
+Fixpoint insert_cat (c : category) (l : list category) : list category :=
+  match l with
+  | [] => [c]
+  | d :: t => if str_ltb (c_name d) (c_name c) then d :: insert_cat c t else c :: l
+  end.
+Definition sort_doc (d : doc) : doc := fold_right insert_cat [] d.
+Definition run_copy_sorted (d : list (str * list str * list (list str))) (cat from to : str) : val :=
+  match copy_item (mkdoc d) cat from to with Some d' => vdoc (sort_doc d') | None => VN end.
+Definition run_replace_sorted (d : list (str * list str * list (list str))) (cat col values : str) : val :=
+  match replace_item (mkdoc d) cat col values with
+  | Raise e => VE (exn_name e)
+  | Ok None => VN
+  | Ok (Some (d', m)) => VL [vdoc (sort_doc d'); vlist (vpair vstr vstr) m]
+  end.
